@@ -872,6 +872,16 @@ example : (MsgEdit.hset [0x68,0x4f,0x73,0x54] [0x7a]).apply m0 =
     { m0 with headers := [([0x48,0x6f,0x53,0x74], [0x7a]), ([0x78], [0x31])] } := by decide
 example : ((MsgEdit.content (some [1,2,3,4,5,6,7,8,9,10,11,12])).apply m0).headers.getLast? =
     some (contentLength, [0x31, 0x32]) := by decide
+-- EMPTY-but-present containers are values like any other: trailers = Headers() (empty), backed up, edited in place,
+-- reverted: the empty trailer block is back; a copy taken before the edit keeps the empty block as well
+private def mE : Msg := { m0 with trailers := some [], headers := [] }
+private def σe : Store Comp := newFlow (empty (.flag false)) 7 true
+  [.conn [], .conn [2], .err none, .flag false, .atom 0, .atom 0, .mdata [], .atom 0, .atom 0, .req mE, .resp (some mE), .ws (some ⟨[], [0]⟩)]
+example : (let σ := revert ipx (runT ipx (backupOp σe 0)
+              [.copy 0 8, .edit 0 (.req (.thset [0x74] [0x31])), .edit 0 (.req (.hadd [0x78] [0x31])), .edit 0 (.metaSet 1 2),
+               .edit 0 (.ws (.append ⟨1, true, [], 0, false, false⟩)), .edit 0 (.resp (.thset [0x74] [0x32]))]) 0
+           σ.flows.map (fun f => content σ f == content σe (σe.flows.headD f))) = [true, true] := by decide
+example : ((MsgEdit.thset [0x74] [0x31]).apply mE).trailers = some [([0x74], [0x31])] := by decide
 private def σt : Store Comp := newFlow (empty (.flag false)) 7 true
   [.conn [1], .conn [2], .err none, .flag false, .atom 0, .atom 0, .mdata [], .atom 0, .atom 0, .req m0, .resp none, .ws none]
 -- backup, header edit + response assignment + copy + edit of the copy, revert: original back, copy keeps its edits
